@@ -346,3 +346,148 @@ def _iname_post_assumed(c, cx, result, self, val, markers, wire, offset):
 
 iname_encode_into.result = _iname_result
 iname_encode_into.post_assumed = _iname_post_assumed
+
+
+# ----------------------------------------------------------------------------- parse_from (parse-side signed portion, C02)
+from pyvc.values import Opaque                                        # noqa: E402
+BOOLARR = z3.ArraySort(INT, z3.BoolSort())
+
+
+class CoverList:
+    """sig_cover_part while the component loop runs: the in-order sub-sequence {a | kept[a]} of the decoded name"""
+
+    def __init__(self, seq, kept):
+        self.seq, self.kept = seq, kept
+
+    def getattr_(self, it, name, node):
+        if name != 'append':
+            raise Unsupported(f'list.{name} on the covered-part list')
+
+        def append(it_, v):
+            g = it_.top_locals.get('__active_loop_ghosts__', {}).get(1)
+            if g is None or not isinstance(v, View):
+                raise Unsupported('append to the covered-part list outside the component loop')
+            i = zint(g['i'])
+            s = self.seq
+            it_.run.oblige(f'{it_.where()}#covered.append_is_the_current_component',
+                           And(Eq(v.cell, z3.Select(s.cells, i)), Eq(v.start, z3.Select(s.starts, i)), Eq(v.length, z3.Select(s.lens, i))))
+            b = z3.Int('b!cov')
+            it_.run.oblige(f'{it_.where()}#covered.append_keeps_order', z3.ForAll([b], z3.Implies(b >= i, z3.Not(z3.Select(self.kept, b)))))
+            self.kept = z3.Store(self.kept, i, z3.BoolVal(True))
+        from contracts.assumed_aio import _M
+        return _M(append)
+
+
+def _pf_kept(v):
+    if isinstance(v, CoverList):
+        return v.kept
+    if isinstance(v, list) and v == []:
+        return z3.K(INT, z3.BoolVal(False))
+    raise Unsupported('covered-part list value')
+
+
+def _pf_digest_state(it, env, g, i):
+    """digest buffer after i components: None iff none of them is a ParametersSha256 component, else the value bytes of the LAST one"""
+    run = it.run
+    h = run.heap
+    seq = g['seq']
+    d = g['lastd']
+    a = z3.Int('a!pfd')
+    db = env['markers'].get(g['dkey'])
+    none_so_far = z3.ForAll([a], z3.Implies(z3.And(a >= 0, a < i), ctype(h, seq, a) != T_DIGEST))
+    if db is None:
+        return none_so_far
+    if not isinstance(db, View):
+        return False
+    comp = View(z3.Select(seq.cells, d), z3.Select(seq.starts, d), z3.Select(seq.lens, d), seq.kind)
+    tn = need_at(h, comp, 0)
+    sn = need_at(h, comp, tn)
+    return z3.And(d >= 0, d < i, ctype(h, seq, d) == T_DIGEST,
+                  z3.ForAll([a], z3.Implies(z3.And(a > d, a < i), ctype(h, seq, a) != T_DIGEST)),
+                  Eq(db.cell, comp.cell), Eq(db.start, comp.start + tn + sn), Eq(zint(db.start) + zint(db.length), zint(comp.start) + zint(comp.length)))
+
+
+def _pf_inv(it, env, g):
+    h = it.run.heap
+    i = zint(g['i'])
+    seq = g['seq']
+    a = z3.Int('a!pfi')
+    kept = _pf_kept(env['sig_cover_part'])
+    return {'covered_so_far_is_every_component_but_the_digest_ones': z3.ForAll([a], z3.Select(kept, a) == z3.And(a >= 0, a < i, ctype(h, seq, a) != T_DIGEST)),
+            'digest_buffer_so_far': _pf_digest_state(it, env, g, i)}
+
+
+def _pf_ghost(it, env, g):
+    return {'lastd': z3.IntVal(-1), 'dkey': it.run.ghost['pf']['dkey']}
+
+
+def _pf_havoc_cover(it, env, g):
+    run = it.run
+    seq = g['seq']
+    # digest buffer: either not seen yet or the value of some earlier component `lastd` (pinned by the invariant)
+    k = run.choose([('no digest component yet', True), ('digest component seen', True)], 'loop state')
+    mk = env['markers']
+    if k == 'no digest component yet':
+        mk.pop(g['dkey'], None)
+    else:
+        d = run.fresh_int('lastd')
+        g['lastd'] = d
+        comp = View(z3.Select(seq.cells, d), z3.Select(seq.starts, d), z3.Select(seq.lens, d), seq.kind)
+        st, ln = run.fresh_int('dbstart'), run.fresh_int('dblen')
+        mk[g['dkey']] = View(comp.cell, st, ln, 'memoryview', False)
+    g['db_head'] = mk.get(g['dkey'])
+    return CoverList(seq, z3.Const(run.fresh_name('covered'), BOOLARR))
+
+
+def _pf_update(it, pre, env, g):
+    """ghost: the component handled in this iteration is the last digest component seen when it (re)set the digest buffer"""
+    if env['markers'].get(g['dkey']) is not g.get('db_head'):
+        g['lastd'] = simp(zint(g['i']))
+
+
+@contract
+class iname_parse_from(Contract):
+    fn = tm.InterestNameField.parse_from
+    props = ('C02', 'C07')
+    doc = ('InterestNameField.parse_from (names of any length): the parsed name is what Name.decode yields at the element; the '
+           'signed portion handed to validators is every name component except ParametersSha256Digest components, in order; the '
+           'digest buffer is the value bytes of the (last) ParametersSha256Digest component and stays unset without one; only '
+           'documented decoding errors are raised')
+    raises = {tm.DecodeError: lambda cx, **p: True, IndexError: lambda cx, **p: True, struct.error: lambda cx, **p: True,
+              ValueError: lambda cx, **p: True}
+    loops = {1: LoopSpec(_pf_inv, ghost=_pf_ghost, havoc={'sig_cover_part': _pf_havoc_cover}, update=_pf_update,
+                         abstracts=('markers',))}
+
+    def setup(self, cx):
+        run = cx.run
+        self_ = mk_self(cx)
+        covered = []
+        dkey = arg_key(A(self_, 'digest_buffer'))
+        markers = {arg_key(A(self_, 'sig_covered_part')): covered}
+        run.ghost['pf'] = dict(dkey=dkey, covered=covered)
+        wire = run.input_buf('wire', 'memoryview')
+        return dict(self=self_, instance=Opaque('token', 'instance'), markers=markers, wire=wire, offset=run.input_int('offset'),
+                    length=run.input_int('length'), offset_btl=run.input_int('offset_btl'))
+
+    def pre(c, cx, self, instance, markers, wire, offset, length, offset_btl):
+        return And(zint(offset_btl) >= 0, zint(offset_btl) <= zint(wire.length))
+
+    def post(c, cx, result, self, instance, markers, wire, offset, length, offset_btl):
+        run = cx.run
+        h = run.heap
+        out = {'returns_the_decoded_name': isinstance(result, BufSeq)}
+        if not isinstance(result, BufSeq):
+            return out
+        n = zint(result.n)
+        a = z3.Int('a!pfp')
+        cov = cx.it.top_locals.get('sig_cover_part')
+        ok = isinstance(cov, CoverList) and cov.seq is result or (isinstance(cov, list) and cov == [])
+        out['covered_list_is_the_one_from_markers'] = ok
+        if ok:
+            out['signed_portion_is_every_component_but_the_digest_ones_in_order'] = z3.ForAll(
+                [a], z3.Select(_pf_kept(cov), a) == z3.And(a >= 0, a < n, ctype(h, result, a) != T_DIGEST))
+        g = cx.it.top_locals.get('__loop_ghost__', {})
+        env = {'markers': markers}
+        gg = dict(seq=result, lastd=g.get('lastd', z3.IntVal(-1)), dkey=run.ghost['pf']['dkey'])
+        out['digest_buffer_is_the_value_of_the_last_digest_component_or_unset'] = _pf_digest_state(cx.it, env, gg, n)
+        return out
